@@ -21,10 +21,11 @@
 #   (J10) `self[key]` inside the `__getitem__` being translated (no array to hand the key to): the method calls ITSELF (recursion on the fuel)
 #   (J11) `if isinstance(x, (int, float, np.integer, np.floating)):` decided statically by the declared type of `x` (number / list)
 #   (J12) `np.array(l, dtype=np.T)` on a list of floats                                  l.map (cast T)
+#   (J13) `a.__getitem__(key)`, key an int / fewer ints than axes / a slice / a tuple of slices   Py.ndIndexPrefix / Py.ndSlice (fallible)
 #   (J7) `self[k]` inside a method of a class whose `__getitem__` is translated for this key type (declared by `call_alias`-free lookup
 #        `<Class>.__getitem__#slices`): here only the all-`:` key on an NDArrayImageStack, i.e. `self.imgs.__getitem__((:, :, :, :))` = (J2)
 # TRUSTED GLUE: listed in design_notes/session4/imgio2.md.
-MODULE_MODEL_IMPORTS["AlgoImgIo2"] = ["PyResample", "PyRaster", "PyImgIo", "PyImgIo2"]
+MODULE_MODEL_IMPORTS["AlgoImgIo2"] = ["PyResample", "PyRaster", "PyImgIo", "PyViews", "PyImgIo2"]
 MODULE_IMPORTS["AlgoImgIo2"] = ["AlgoImgIo", "AlgoRaster"]
 share_hooks("AlgoImgIo", "AlgoImgIo2")
 share_hooks("AlgoRaster", "AlgoImgIo2")
@@ -230,6 +231,38 @@ def _io2_np_array(tr, e, want):
 STMT_HOOKS.append(_io2_isinstance_num)
 EXPR_HOOKS.append(_io2_np_array)
 
+def _io2_show_slice(t):
+    return "Py.Slice" if t == "Slice" else None
+
+
+SHOW_TYPE_HOOKS.append(_io2_show_slice)
+
+
+def _io2_getitem_keys(tr, e, want):
+    """(J13) `a.__getitem__(key)` on an n-d array for a key that is an int / a tuple of FEWER ints than axes (the sub-array), a slice or a tuple
+    of slices — the key forms of `ImageStack.__getitem__` other than the full int tuple of 18b (I13)"""
+    if not (isinstance(e, ast.Call) and isinstance(e.func, ast.Attribute) and e.func.attr == "__getitem__" and len(e.args) == 1 and not e.keywords
+            and _io_is_arr(want)):
+        return None
+    s0, c, t = tr.tr(e.func.value)
+    if t != want:
+        return None
+    s1, k, tk = tr.tr(e.args[0])
+    parts, tt = [], tk
+    while isinstance(tt, tuple) and tt[0] == "Prod":
+        parts.append(tt[1]); tt = tt[2]
+    parts.append(tt)
+    ks = "[" + ", ".join(proj(k, i, len(parts)) if len(parts) > 1 else k for i in range(len(parts))) + "]"
+    n = tr.bindname()
+    if all(x == "Int" for x in parts):
+        return s0 + s1 + [f"Py.bind (Py.ndIndexPrefix {c} {ks}) fun {n} =>"], n, t
+    if all(x == "Slice" for x in parts):
+        return s0 + s1 + [f"Py.bind (Py.ndSlice {c} {ks}) fun {n} =>"], n, t
+    return None
+
+
+EXPR_HOOKS.append(_io2_getitem_keys)
+
 EXPR_HOOKS.append(_io2_rec_getitem)
 STMT_HOOKS.append(_io2_isinstance_stmt)
 EXPR_HOOKS.append(_io2_expr)
@@ -329,3 +362,11 @@ spec(lean="tostack_init_scalar", vars={"resolution": "K", "resolution#2": "List 
 spec(lean="tostack_init_array", vars={"resolution": "List K", "res": "List K"},
      doc="`swcgeom/transforms/image_stack.py::ToImageStack.__init__`, `resolution` a sequence of numbers (the field `self.resolution` is the result; no "
          "result = AssertionError)", **_IO2_INIT)
+
+# `NDArrayImageStack.__getitem__`, the other overloads of `ImageStack.__getitem__` (`self.imgs` is the parameter `imgs`)
+for _nm, _kt in (("int", "Int"), ("int2", "Int × Int"), ("int3", "Int × Int × Int"), ("slice", "Slice"), ("slice2", "Slice × Slice"),
+                 ("slice3", "Slice × Slice × Slice"), ("slice4", "Slice × Slice × Slice × Slice")):
+    spec(lean=f"ndarray_getitem_{_nm}", module="AlgoImgIo2", file=_IO_FILE, cls="NDArrayImageStack", func="__getitem__", params=["imgs", "key"],
+         num_tparams=["K"], vars={"imgs": "NdArr K", "key": _kt}, ret="NdArr K", subst={"self.imgs": ("v.imgs", "NdArr K")},
+         doc=f"`swcgeom/images/io.py::NDArrayImageStack.__getitem__`, the overload `key: {_kt.replace('Int', 'int').replace('Slice', 'slice')}` "
+             "(`self.imgs` is the parameter `imgs`; no result = IndexError / ValueError)")
